@@ -263,7 +263,21 @@ def table(I):
     reg(min, m_minmax(min))
     reg(max, m_minmax(max))
 
+    def m_bytearray(*a, **k):
+        from .values import SByteArray
+        if not a:
+            return SByteArray()
+        if isinstance(a[0], (SBytes, SByteArray)):
+            return SByteArray(a[0])
+        if is_symbolic(a[0]):
+            raise Unsupported('bytearray() of %s' % type(a[0]).__name__)
+        return bytearray(*a, **k)
+    reg(bytearray, m_bytearray)
+
     def m_bytes(*a, **k):
+        from .values import SByteArray
+        if a and isinstance(a[0], SByteArray):
+            return a[0].data
         if a and isinstance(a[0], SBytes):
             return a[0]
         if a and is_symbolic(a[0]):
